@@ -6,6 +6,7 @@ status on the wire (C03) are compared with what was sent. Lean: Props/C02.lean (
 primitives as strings: parse ∘ format = id; location partition of a payload) over Model/Transport.lean,
 tied by drv_transport against the same exchanges."""
 import json
+import subprocess
 import os
 import re
 import shutil
@@ -129,6 +130,23 @@ def chosen_response(method, result):
     return None
 
 
+ELEMS = {}
+
+
+def model_elems(direction, loc, strs):
+    """Model/Transport.lean deliverElems through drv_transport: the strings that arrive under the key (None: driver unavailable)"""
+    line = "elems %s %s %s" % (direction, loc, " ".join(x.encode().hex() or "-" for x in strs))
+    line = line.strip()
+    if line not in ELEMS:
+        drv = os.path.join(LEAN, ".lake/build/bin/drv_transport")
+        if not os.path.exists(drv):
+            return None
+        p = subprocess.run([drv], input=line + "\n", capture_output=True, text=True)
+        toks = p.stdout.split()
+        ELEMS[line] = [bytes.fromhex(t).decode() if t != "-" else "" for t in toks[1:]] if toks[:1] == ["arrives"] else None
+    return ELEMS[line]
+
+
 def judge_call(b, svc, method, cmd, obs):
     """Returns a list of (signature, what) for one observed call with a valid payload and result."""
     out = []
@@ -183,7 +201,47 @@ def judge_call(b, svc, method, cmd, obs):
         # reads one element per header VALUE and does not split: only arrays of exactly one element survive
         joined = [k for k, v in (cmd["script"].get("result") or {}).items() if rlocs.get(k) == "header" and isinstance(v, list) and len(v) != 1] \
             if isinstance(cmd["script"].get("result"), dict) else []
-        if joined and obs.get("client_error"):
+        # ... stated exactly by Model/Transport.lean `deliverElems` (Props/C02.lean response_header_elems_delivered_iff): what the client sees is
+        # compared with the model's prediction, so another behaviour of header arrays is not covered by the recorded finding
+        explained, handled = False, set()
+        for k, v in ((cmd["script"].get("result") or {}).items() if isinstance(cmd["script"].get("result"), dict) else []):
+            if rlocs.get(k) != "header" or not isinstance(v, list):
+                continue
+            _, _, att = att_at(b.schema, method["result"], SEP + k)
+            prim = ((b.schema.resolve((b.schema.resolve(att).get("type") or {}).get("array") or {}) if att else {}).get("type") or {}).get("prim")
+            if prim == "String":
+                strs = list(v)
+            elif prim in e2e.INT_RANGES:
+                strs = [str(x) for x in v]
+            elif prim == "Boolean":
+                strs = ["true" if x else "false" for x in v]
+            else:
+                continue  # floats: the textual form is Go's, not modelled
+            arrives = model_elems("response", "header", strs)
+            if arrives is None:
+                continue
+            if prim == "String":
+                want_seen, want_err = arrives, False
+            else:
+                conv = [e2e.parse_prim(prim, x) for x in arrives]
+                want_seen, want_err = conv, any(x is None for x in conv)
+            seen = (obs.get("client_result") or {}).get(k) if isinstance(obs.get("client_result"), dict) else None
+            as_model = bool(obs.get("client_error")) if want_err else (not obs.get("client_error") and canon(seen) == canon(want_seen))
+            if k in joined:
+                joined.remove(k)
+            if not as_model:
+                out.append(("response/header/array-differs-from-model", "%s: result attribute %s = %r in a response header: the model of the generated "
+                            "encoder/decoder pair predicts %s, the client %s" % (name, k, v, "an error" if want_err else repr(want_seen),
+                                                                                 "returned the error " + obs["client_error"].get("message", "")[:120] if obs.get("client_error") else "saw %r" % (seen,))))
+                explained = True
+            elif want_err or canon(want_seen) != canon(v):
+                out.append(("response/header/array-written-as-one-joined-value", "%s: result attribute %s = %r travels in a response header as one comma-joined "
+                            "value, the client reads one element per header value: it %s" % (name, k, v, "fails" if want_err else "sees %r" % (want_seen,))))
+                explained = True
+            handled.add(k)  # judged here
+        if explained and obs.get("client_error"):
+            pass
+        elif joined and obs.get("client_error"):
             out.append(("response/header/array-written-as-one-joined-value", "%s: result attribute %s = %r travels in a response header as one comma-joined "
                         "value, the client reads one element per header value: %s" % (name, joined[0], cmd["script"]["result"][joined[0]], obs["client_error"].get("message", "")[:160])))
         elif obs.get("client_error"):
@@ -218,6 +276,8 @@ def judge_call(b, svc, method, cmd, obs):
                     out.append(("response/defaulted-zero-arrives-as-default", "%s: result attribute %s returned as %r seen by the client as %r" % (name, show(path), s, g)))
                     continue
                 top = path.strip(SEP).split(SEP)[0]
+                if top in handled:
+                    continue
                 if top in joined:
                     out.append(("response/header/array-written-as-one-joined-value", "%s: result attribute %s = %r travels in a response header as one comma-joined "
                                 "value, the client sees %r" % (name, top, cmd["script"]["result"][top], (obs.get("client_result") or {}).get(top))))
